@@ -392,6 +392,151 @@ def run_live_exports(ctx, binary):
     return n
 
 
+# ---- an import statement INSIDE a function / method body: the module initialises the first time that statement is
+# EXECUTED (the first call), once, however many functions import it and however often they are called; the names the
+# import binds are locals of that function.  Python statement of the property.
+def import_in_function_cases(rng, n):
+    def lib(k):
+        return ('print "init lib%d"\ncounter_%d = 0\nexport bump_%d: fn() -> int = fn() -> int {\n\tmodify counter_%d = counter_%d + 1\n\treturn counter_%d\n}\n'
+                'export val_%d: int = %d\n' % (k, k, k, k, k, k, k, 100 * (k + 1)))
+    out = []
+    wheres = ["top", "block", "after-print", "nested-fn", "method", "other-module"]
+    for idx in range(n):
+        nl = rng.choice([1, 2])
+        files = {"lib%d.ms" % k: lib(k) for k in range(nl)}
+        main = 'print "start"\n'
+        fns = []
+        kinds = [(wheres[idx % len(wheres)], ["whole", "names"][(idx // len(wheres)) % 2])] + \
+                [(rng.choice(wheres), rng.choice(["whole", "names"])) for _ in range(rng.randint(0, 2))]
+        helper = ""
+        for i, (where, form) in enumerate(kinds):
+            k = rng.randrange(nl)
+            imp = "import lib%d" % k if form == "whole" else "import bump_%d, val_%d from lib%d" % (k, k, k)
+            use = "lib%d.bump_%d() * 1000 + lib%d.val_%d" % (k, k, k, k) if form == "whole" else "bump_%d() * 1000 + val_%d" % (k, k)
+            call = "f%d()" % i
+            if where == "top":
+                main += "f%d = fn() -> int {\n\t%s\n\treturn %s\n}\n" % (i, imp, use)
+            elif where == "block":
+                main += "f%d = fn() -> int {\n\tif true {\n\t\t%s\n\t\treturn %s\n\t}\n\treturn 0 - 1\n}\n" % (i, imp, use)
+            elif where == "after-print":
+                main += "f%d = fn() -> int {\n\tprint \"in f%d\"\n\t%s\n\treturn %s\n}\n" % (i, i, imp, use)
+            elif where == "nested-fn":
+                main += "f%d = fn() -> int {\n\tg = fn() -> int {\n\t\t%s\n\t\treturn %s\n\t}\n\treturn g()\n}\n" % (i, imp, use)
+            elif where == "method":
+                main += "class C%d {\n\tconstructor(self) {}\n\tfn go(self) -> int {\n\t\t%s\n\t\treturn %s\n\t}\n}\nc%d = C%d()\n" % (i, imp, use, i, i)
+                call = "c%d.go()" % i
+            else:
+                # the function lives in another module, which is imported (and initialised) by the entry module first
+                helper += "export h%d: fn() -> int = fn() -> int {\n\t%s\n\treturn %s\n}\n" % (i, imp, use)
+                call = "helper.h%d()" % i
+            fns.append((i, where, k, call))
+        exp = ["start"]
+        if helper:
+            files["helper.ms"] = 'print "init helper"\n' + helper
+            main += "import helper\n"
+            exp.append("init helper")
+        main += 'print "defined"\n'
+        exp.append("defined")
+        inited, count = set(), {}
+        for _ in range(rng.randint(2, 6)):
+            i, where, k, call = rng.choice(fns)
+            main += "print %s\n" % call
+            if where == "after-print":
+                exp.append("in f%d" % i)
+            if k not in inited:
+                inited.add(k)
+                exp.append("init lib%d" % k)
+            count[k] = count.get(k, 0) + 1
+            exp.append(str(count[k] * 1000 + 100 * (k + 1)))
+        files["main.ms"] = main
+        out.append((files, exp))
+    return out
+
+
+# ---- "visible to importers, with their declared types": every kind of exported member, reached by name and through
+# the module value, has the type its `export` declaration states - an exported INSTANCE of an exported class included
+DT_LIB = ("export class Box {\n\tv: int\n\tconstructor(self, v: int) {\n\t\tself.v = v\n\t}\n\tfn peek(self) -> int {\n\t\treturn self.v\n\t}\n}\n"
+          "export n: int = 5\nexport s: str = \"x\"\nexport l: [int...] = [1, 2]\nexport f: fn(int) -> int = fn(a: int) -> int {\n\treturn a + 1\n}\n"
+          "export shared: Box = Box(100)\nexport maybe: Box? = Box(7)\nexport boxes: [Box...] = [Box(1), Box(2)]\n"
+          "export mk: fn() -> Box = fn() -> Box {\n\treturn Box(3)\n}\nexport const kept: Box = Box(9)\n")
+# (member, kind, declared type, expression showing a value X of that type, expected line)
+DT_MEMBERS = [("n", "int", "int", "X + 1", "6"), ("s", "str", "str", 'X + "!"', "x!"), ("l", "list", "[int...]", "X[1]", "2"),
+              ("f", "function", "fn(int) -> int", "X(1)", "2"), ("shared", "instance", "Box", "X.v + X.peek()", "200"),
+              ("maybe", "optional-instance", "Box?", "(get X).v", "7"), ("boxes", "list-of-instances", "[Box...]", "(X[1]).v", "2"),
+              ("mk", "function-returning-instance", "fn() -> Box", "(X()).v", "3"), ("kept", "const-instance", "Box", "X.peek()", "9")]
+DT_NEGATIVE = [
+    ("call-imported-instance", "import shared from lib\nprint \"MARK\"\ny = shared(5)\n"),
+    ("call-imported-instance-through-module", "import lib\nprint \"MARK\"\ny = lib.shared(5)\n"),
+    ("instance-as-int", "import shared from lib\nprint \"MARK\"\ny: int = shared\n"),
+    ("instance-as-function", "import Box, shared from lib\nprint \"MARK\"\ny: fn(int) -> Box = shared\n"),
+    ("class-as-instance", "import Box from lib\nprint \"MARK\"\ny: Box = Box\n"),
+]
+
+
+def declared_type_cases():
+    """-> [(id, class, main.ms text, expected stdout lines or None when the program must be rejected)]"""
+    out = []
+    for name, kind, ty, show, exp in DT_MEMBERS:
+        forms = {
+            "names-annotated": "import Box, %s from lib\nx: %s = %s\nprint %s\n" % (name, ty, name, show.replace("X", "x")),
+            "names-direct": "import %s from lib\nprint %s\n" % (name, show.replace("X", name)),
+            "whole-annotated": "import lib\nimport Box from lib\nx: %s = lib.%s\nprint %s\n" % (ty, name, show.replace("X", "x")),
+            "whole-inferred": "import lib\nx = lib.%s\nprint %s\n" % (name, show.replace("X", "x")),
+        }
+        for form, text in sorted(forms.items()):
+            out.append(("%s/%s" % (name, form), "imported-member-type:" + kind, text, [exp]))
+    for cid, text in DT_NEGATIVE:
+        out.append((cid, "visibility:" + cid, text, None))
+    return out
+
+
+def run_function_imports_and_types(ctx, binary):
+    base = ctx.mktemp()
+    fcases = import_in_function_cases(ctx.rng, 36 if ctx.quick() else 360)
+
+    def one(c):
+        files = c[0]
+        d = programs.materialize({"files": files}, base)
+        r1 = programs.run_bin(binary, ["run", "main.ms", "-q"], d)
+        cc = programs.run_bin(binary, ["compile", "main.ms", "--quick"], d)
+        r2 = programs.run_bin(binary, ["execute", "main.mmm"], d) if cc[0] == 0 else None
+        shutil.rmtree(d, ignore_errors=True)
+        return r1, r2
+    n = 0
+    for (files, exp), (r1, r2) in zip(fcases, programs.pmap(one, fcases)):
+        for how, r in (("run", r1), ("compile+execute", r2)):
+            if r is None:
+                continue
+            n += 1
+            got = r[1].split("\n")[:-1]
+            if r[0] != 0 or got != exp:
+                why = [l.strip() for l in (r[1] + r[2]).splitlines() if l.strip().startswith("=") or "is not in scope" in l]
+                ctx.report("import-in-function-body", "%s: an import statement inside a function / method body: printed %r (exit %d) %s; the module initialises once, when the import is first executed: %r"
+                           % (how, got[-5:], r[0], why[:1], exp[-5:]),
+                           {"files": files, "expected": exp, "observed": got, "rc": r[0], "stderr": r[2][-500:], "how": "mscript run main.ms -q / compile main.ms --quick + execute main.mmm"})
+    tcases = declared_type_cases()
+
+    def one_t(c):
+        d = programs.materialize({"files": {"main.ms": c[2], "lib.ms": DT_LIB}}, base)
+        r = programs.run_bin(binary, ["run", "main.ms", "-q"], d)
+        shutil.rmtree(d, ignore_errors=True)
+        return r
+    for (cid, cls, text, exp), r in zip(tcases, programs.pmap(one_t, tcases)):
+        n += 1
+        got = r[1].split("\n")[:-1]
+        replay = {"case": cid, "files": {"main.ms": text, "lib.ms": DT_LIB}, "expected": exp if exp is not None else "rejected at compile time, nothing runs",
+                  "observed": got[-6:], "rc": r[0], "stderr": r[2][-500:], "how": "mscript run main.ms -q"}
+        if exp is None:
+            if "Did not compile successfully" not in r[2] or "MARK" in r[1]:
+                ctx.report(cls, "a use of an imported member against its declared type (%s) is not rejected at compile time: exit %d, %r" % (cid, r[0], (r[1] + r[2])[-200:]), replay)
+        elif r[0] != 0 or got != exp:
+            why = [l.strip() for l in r[1].splitlines() if l.strip().startswith("=")]
+            ctx.report(cls, "an exported member used with its declared type (%s): exit %d, printed %r %s, expected %r" % (cid, r[0], got[-3:], why[:1], exp), replay)
+    ctx.cov["import_in_function_body_cases"] = len(fcases)
+    ctx.cov["declared_type_cases"] = len(tcases)
+    return n
+
+
 def run(ctx):
     ok = core.coq_props(ctx, "Props/C11.v")
     binary = core.build_repo()
@@ -512,6 +657,9 @@ def run(ctx):
         shutil.rmtree(d, ignore_errors=True)
 
     nlive = run_live_exports(ctx, binary)
+    before = len(ctx.viol)
+    nlive += run_function_imports_and_types(ctx, binary)
+    spec_fail += len(ctx.viol) - before
     ctx.cov["evaluations"] = len(projs) + neg + nlive
     ctx.cov["distinct_nontrivial"] = nontrivial
     ctx.cov["exhaustive"] = True
@@ -520,7 +668,10 @@ def run(ctx):
                                   "{import m, names, both, import type T, import type T + names, import m + import type T} per edge"
                                   + ("" if ctx.quick() else "; 4 modules: every DAG x form per edge (placement/order random)"))
     ctx.cov["rule"] = ("a case = one project run twice (in memory, from files); streams: exhaustive-3, kinds-3, exhaustive-4 (thorough), random 4-5-module DAGs with random module kinds, "
-                       "path spellings (./m, ././m, m.ms, lib/./m, entry as ./m0.ms), 7 rejected visibility programs; "
+                       "path spellings (./m, ././m, m.ms, lib/./m, entry as ./m0.ms), 7 rejected visibility programs; import statements inside function / method bodies "
+                       "(first executed at the first call; top of the body, nested block, after an effect, inner function, method, function of another module; both forms; both modes); "
+                       "every kind of exported member (int, str, list, function, instance, optional instance, list of instances, function returning an instance, const instance) "
+                       "used with its declared type by name and through the module, and 5 programs that contradict the declared type; "
                        "non-trivial = a reached module is imported by at least two import sites (once-only / sharing is exercised)")
     ctx.cov["distribution"] = dist
     ctx.cov["model_impl_disagreements"] = dis
